@@ -206,8 +206,8 @@ class Engine:
 		if spans:
 			for name, kind, offset, length in spans:
 				offset, length = int(offset), int(length)
-				if 0 == length:
-					continue
+				if 0 == length or offset + length > len(data):
+					continue  # (the second case: the implementation's encoding is shorter than the model's layout - reported elsewhere)
 				if 'reserved' == kind:
 					position = offset + rng.randrange(length)
 					result.append((flip(data, position, rng.randrange(8)), f'reserved-flip:{name}'))
